@@ -23,19 +23,28 @@ RULE  = ("term lists are ENUMERATED: every list of 1..4 terms x^i a^j with 1 <= 
          "list/tuple/LazyDense/HashableDense of 0-6 numbers and/or strings, dict/LazySparse/HashableSparse with str or int "
          "keys and numeric and/or string values; numbers are distinct primes (85%) or small ints/dyadic floats incl. 0, "
          "negatives and repeats. A case is one encode; distinct & non-trivial = distinct (canonical term list with constant "
-         "positions, kind and length of x and of a, number family) with a non-empty expected expansion")
-PLAN  = {"quick":    {"shards": 16, "cases": 20000,  "timeout": 600,  "budget_s": 80,  "inputs": 3},
-         "thorough": {"shards": 16, "cases": 168420, "timeout": 3000, "budget_s": 2400, "inputs": 4}}
+         "positions, kind and length of x and of a, number family) with a non-empty expected expansion. HISTORIES: every 1- and "
+         "2-term list, a seeded share of the others and, in every shard, each one-term list twice more also get a caller "
+         "history on ONE encoder: 4-8 encodes that mix the x of one input with the a of another, bring equal values back "
+         "(the very object passed before or an equal new one) and, between the calls, edit in place (append / zero / clear "
+         "/ grow / item assignment) results handed out earlier and (add / drop / change a feature) the lists and dicts that "
+         "were passed; a history is distinct by (term list, step pattern)")
+PLAN  = {"quick":    {"shards": 16, "cases": 20000,  "timeout": 600,  "budget_s": 80,  "inputs": 3, "history_frac": .3, "one_term_histories": 2},
+         "thorough": {"shards": 16, "cases": 168420, "timeout": 3000, "budget_s": 2400, "inputs": 4, "history_frac": .25, "one_term_histories": 4}}
 REQUIRED = ["oracle.dense", "oracle.sparse", "oracle.dense.segment", "oracle.sparse.key", "oracle.constant.dense",
             "oracle.constant.sparse", "oracle.ns.scalar", "oracle.ns.none", "oracle.ns.empty", "oracle.ns.absent",
             "oracle.ns.string", "oracle.pow>=4.feat>=3", "oracle.repeated-const", "oracle.repeated-term",
-            "oracle.reused-encoder", "termlists.enumerated"]
+            "oracle.reused-encoder", "termlists.enumerated", "oracle.history", "oracle.history.encode",
+            "oracle.history.kept-unchanged", "oracle.history.result-edited", "oracle.history.input-edited",
+            "oracle.history.encode-after-result-edit", "oracle.history.encode-after-input-edit",
+            "oracle.history.equal-values-after-result-edit", "oracle.history.same-object-again"]
 ASSUMPTIONS = [
     "order of monomials inside one term is not checked (the statement does not claim it); the order of terms and 'constant first' are checked for vectors only - a mapping has no order",
     "several numeric constants: one leading entry equal to their sum (what coba documents in its tests) or each constant in turn are both accepted; a constant (sum) of 0 may be present or omitted",
     "a term list that names the same monomial set twice ('x','x' or 'xa','ax'): the later occurrences may be expanded again or folded into the first one, both are accepted; losing or re-ordering a *different* term is not",
     "sparse keys are decoded with coba's documented naming (namespace letter + feature key/index + string value, concatenated); feature keys and string values never contain the letters x/a and are distinct after str(), so decoding is unambiguous",
     "when a namespace that no term uses is the only sparse/string input, list or mapping output are both accepted",
+    "histories: what encode returns is taken to be the caller's own vector / mapping (a caller may edit it in place) and what was passed stays the caller's too: each encode is held against the expansion of the values passed to THAT call (the current content of an edited container), and a result the caller kept must stay as returned / as the caller left it; results that cannot be edited in place (not a list / dict) are only kept and compared; only plain lists and dicts are edited as inputs",
     "the empty term '' and namespaces other than x and a are outside the statement and not generated; all arithmetic is exact (ints, dyadic floats)",
 ]
 
@@ -50,6 +59,9 @@ TEXTS  = ["b", "c", "d", "zz", "Q", "b1", "", " ", "7", "é", "X", "e_f"]
 SKEYS  = ["k", "m", "p", "q", "r", "kk", "7", "12", "_", "K"]
 IKEYS  = [0, 1, 2, 3, 5, 10, 11, 40]
 CONSTS = [1, 1, 1, 2, 3, 0.5, -1, 0, 1.5]
+OUT_OPS = ["append", "zero", "clear", "grow", "setitem"]      # in-place edits of a returned vector / mapping
+IN_OPS  = ["add", "drop", "change"]                           # in-place edits of a list / dict that was passed
+FRESH   = [47, 53, 59, 61, 67, 71, 73, 79, 83, 89, 97, 101, 103, 107, 109, 113]
 
 # ------------------------------------------------------------------------------------------ enumeration
 def unrank(i):
@@ -109,14 +121,33 @@ def gen_input(rng):
     dense = rng.random() < .4                                   # otherwise one sparse namespace makes the whole encode sparse
     return {"x": gen_ns(rng, fam, pool, dense), "a": gen_ns(rng, fam, pool, dense), "fam": fam}
 
-def gen_case(rng, index=None, n_inputs=3):
+def gen_history(rng, n_inputs):
+    """what one caller does with one encoder: 4-8 encodes over the case's inputs (x of one, a of another), equal values
+    coming back (the very object passed before, or an equal new one), and between the calls the caller edits - in place -
+    results it was handed earlier and/or the containers it passed"""
+    steps, i, j = [], 0, 0
+    for s in range(rng.randint(4, 8)):
+        r = rng.random()
+        if s == 0 or r >= .8: i, j = rng.randrange(n_inputs), rng.randrange(n_inputs)
+        elif r < .45: pass                                       # the same x and a again
+        elif r < .65: j = rng.randrange(n_inputs)                # the same context with another action
+        else:         i = rng.randrange(n_inputs)
+        st = {"x": i, "a": j, "same": rng.random() < .5}
+        if rng.random() < .6: st["mut_out"] = {"op": rng.choice(OUT_OPS), "which": -1 if rng.random() < .6 else rng.randrange(8)}
+        if rng.random() < .3: st["mut_in"]  = {"ns": rng.choice(NS), "op": rng.choice(IN_OPS), "at": rng.randrange(8)}
+        steps.append(st)
+    return steps
+
+def gen_case(rng, index=None, n_inputs=3, history=False):
     if index is None: index = rng.randrange(NLISTS)
     terms = [spell(rng, t) for t in unrank(index)]
     r = rng.random()
     nconst = 0 if r < .45 else 1 if r < .75 else 2 if r < .93 else 3
     for _ in range(nconst):
         terms.insert(rng.randint(0, len(terms)), rng.choice(CONSTS))
-    return {"index": index, "terms": terms, "inputs": [gen_input(rng) for _ in range(n_inputs)]}
+    spec = {"index": index, "terms": terms, "inputs": [gen_input(rng) for _ in range(n_inputs)]}
+    if history: spec["history"] = gen_history(rng, n_inputs)
+    return spec
 
 # ------------------------------------------------------------------------------------------ reference model
 def is_num(t): return not isinstance(t, str)
@@ -194,14 +225,15 @@ def term_variants(sterms):
     return out
 
 # ------------------------------------------------------------------------------------------ the oracle for one encode
-def run_encode(case, encoder=None):
+def run_encode(case, encoder=None, kw=None):
     from coba.encodings import InteractionsEncoder
     enc = encoder if encoder is not None else InteractionsEncoder(list(case["terms"]))
-    kw = {ns: build(case[ns]) for ns in NS if case[ns]["k"] != "absent"}
+    if kw is None: kw = {ns: build(case[ns]) for ns in NS if case[ns]["k"] != "absent"}
     return enc.encode(**kw)
 
-def evaluate(case, encoder=None, note=None):
-    """-> None when the encode agrees with the reference, else (mode, detail)"""
+def evaluate(case, encoder=None, note=None, kw=None, io=None):
+    """-> None when the encode agrees with the reference, else (mode, detail); kw = the objects to pass (built from
+    the case when not given), io = dict that receives the returned object under 'out'"""
     note = note or (lambda name, n=1: None)
     terms  = case["terms"]
     sterms = [t for t in terms if not is_num(t)]
@@ -211,9 +243,10 @@ def evaluate(case, encoder=None, note=None):
     any_sparse  = any(is_sparse_input(case[ns]) for ns in NS)
     used_sparse = any(is_sparse_input(case[ns]) for ns in NS if ns in used)
     try:
-        out = run_encode(case, encoder)
+        out = run_encode(case, encoder, kw)
     except Exception as e:
         return (f"raise:{type(e).__name__}", f"{type(e).__name__}: {e}")
+    if io is not None: io["out"] = out
 
     if isinstance(out, Mapping):         got_sparse = True
     elif isinstance(out, (list, tuple)): got_sparse = False
@@ -408,6 +441,143 @@ def signature(case, mode):
     path = "sparse" if any(is_sparse_input(case[ns]) for ns in NS) else "dense"
     return f"encode/path={path}/mode={mode}/" + ",".join(flags)
 
+# ------------------------------------------------------------------------------------------ histories on one encoder
+def report_single(case, fresh):
+    small = shrink(case)
+    r2 = evaluate(small) or fresh
+    return (signature(small, r2[0]), f"{r2[1]} | minimal: terms={small['terms']} x={small['x']} a={small['a']} | original: terms={case['terms']} x={case['x']} a={case['a']}")
+
+def snap(obj):
+    if isinstance(obj, Mapping): return ("map", dict(obj))
+    if isinstance(obj, (list, tuple)): return ("seq", list(obj))
+    return ("other", repr(obj))
+
+def mutate_result(obj, op):
+    """what a caller may do to a vector / mapping it was handed; False when the object cannot be edited in place"""
+    try:
+        if isinstance(obj, list):
+            if   op == "append":  obj.append(1)
+            elif op == "clear":   obj.clear()
+            elif op == "grow":    obj += [7, 7]
+            elif op == "zero":
+                for i in range(len(obj)): obj[i] = 0
+            elif obj:             obj[-1] = 1009
+            else:                 obj.append(1009)
+            return True
+        if isinstance(obj, dict):
+            if   op == "append":  obj["zz"] = 9
+            elif op == "clear":   obj.clear()
+            elif op == "grow":    obj.update({"q1": 7, "q2": 7})
+            elif op == "zero":
+                for k in obj: obj[k] = 0
+            elif obj:             obj[next(reversed(obj))] = 1009
+            else:                 obj["zz"] = 1009
+            return True
+    except Exception: pass
+    return False
+
+def mutate_input(inp, live, op, at, new):
+    """edits the passed container in place and returns its new description; None when it is no plain list / dict"""
+    if inp["k"] == "seq" and inp.get("as", "list") == "list" and type(live) is list:
+        v = list(inp["v"])
+        if op == "add" or not v: v.append(new); live.append(new)
+        elif op == "drop":       i = at % len(v); del v[i]; del live[i]
+        else:                    i = at % len(v); v[i] = new; live[i] = new
+        return dict(inp, v=v)
+    if inp["k"] == "map" and inp.get("as", "dict") == "dict" and type(live) is dict:
+        items = [list(it) for it in inp["items"]]
+        if op == "add" or not items: items.append([f"n{new}", new]); live[f"n{new}"] = new
+        elif op == "drop":           i = at % len(items); del live[items[i][0]]; del items[i]
+        else:                        i = at % len(items); items[i][1] = new; live[items[i][0]] = new
+        return dict(inp, items=items)
+    return None
+
+def run_history(terms, inputs, steps, do_out=True, do_in=True, note=None):
+    """plays the steps on ONE encoder. Every encode is held against the reference expansion of the values passed to
+    THAT call; every result the caller still holds must stay what it was (as returned, or as the caller last left
+    it) whatever is encoded later and whatever the caller does to other results or to the containers it passed.
+    -> None or the first failure {kind, mode, detail, step, case}"""
+    from coba.encodings import InteractionsEncoder
+    note = note or (lambda name, n=1: None)
+    enc  = InteractionsEncoder(list(terms))
+    used = set("".join(t for t in terms if not is_num(t)))
+    cur  = {ns: [inp[ns] for inp in inputs] for ns in NS}       # descriptions, edited together with the live objects
+    live = {ns: {} for ns in NS}
+    kept = []                                                   # [object, snapshot, description of the inputs, edited by the caller]
+    new  = iter(FRESH)
+    out_edited = in_edited = False
+    def changed():
+        for n, k in enumerate(kept):
+            note("oracle.history.kept-unchanged")
+            if snap(k[0]) != k[1]: return f"result of encode #{n+1} was {k[1][1]} and now is {snap(k[0])[1]}"
+    for s, st in enumerate(steps):
+        idx, kw = {ns: st[ns] % len(inputs) for ns in NS}, {}
+        for ns in NS:
+            d = cur[ns][idx[ns]]
+            if d["k"] == "absent": continue
+            if st.get("same") and idx[ns] in live[ns]: note("oracle.history.same-object-again")
+            else: live[ns][idx[ns]] = build(d)
+            kw[ns] = live[ns][idx[ns]]
+        case = {"terms": list(terms), "x": cur["x"][idx["x"]], "a": cur["a"][idx["a"]], "fam": "history"}
+        io = {}
+        r = evaluate(case, enc, note, kw, io)
+        if s: note("oracle.history.encode")
+        if out_edited: note("oracle.history.encode-after-result-edit")
+        if in_edited:  note("oracle.history.encode-after-input-edit")
+        if any(k[3] and any(ns in used and features(ns, case[ns]) and features(ns, k[2][ns]) == features(ns, case[ns]) for ns in NS) for k in kept):
+            note("oracle.history.equal-values-after-result-edit")
+        where = f"encode #{s+1} of {len(steps)} on one encoder"
+        if r is not None: return {"kind": "encode", "mode": r[0], "detail": f"{where}: {r[1]}", "step": s, "case": case}
+        c = changed()
+        if c: return {"kind": "kept", "mode": "kept-result-changed-by-later-encode", "detail": f"after {where}: {c}", "step": s, "case": case}
+        kept.append([io["out"], snap(io["out"]), {ns: case[ns] for ns in NS}, False])
+        m = st.get("mut_out")
+        if m and do_out:
+            t = kept[-1] if m["which"] < 0 else kept[m["which"] % len(kept)]
+            if mutate_result(t[0], m["op"]):
+                t[1], t[3], out_edited = snap(t[0]), True, True
+                note("oracle.history.result-edited")
+                c = changed()
+                if c: return {"kind": "kept", "mode": "kept-result-changed-by-editing-another-result", "detail": f"after {where} the caller did '{m['op']}' on one result: {c}", "step": s, "case": case}
+            else: note("history.result-not-editable")
+        m = st.get("mut_in")
+        if m and do_in and m["ns"] in kw:
+            ns = m["ns"]
+            d = mutate_input(cur[ns][idx[ns]], kw[ns], m["op"], m["at"], next(new))
+            if d is not None:
+                cur[ns][idx[ns]], in_edited = d, True
+                note("oracle.history.input-edited")
+                c = changed()
+                if c: return {"kind": "kept", "mode": "kept-result-changed-by-editing-the-input", "detail": f"after {where} the caller did '{m['op']}' on the {ns} it had passed: {c}", "step": s, "case": case}
+    return None
+
+def check_history(spec, ctx=None):
+    terms, inputs, steps = spec["terms"], spec["inputs"], spec["history"]
+    sterms = [t for t in terms if not is_num(t)]
+    note = ctx.count if ctx else None
+    f = run_history(terms, inputs, steps, True, True, note)
+    if ctx:
+        ctx.case(("history", tuple("c" if is_num(t) else canon(t) for t in terms),
+                  tuple((st["x"], st["a"], st.get("same"), (st.get("mut_out") or {}).get("op"), (st.get("mut_in") or {}).get("op")) for st in steps)))
+        ctx.count("oracle.history")
+    if f is None: return []
+    if f["kind"] == "encode":
+        fresh = evaluate(f["case"])
+        if fresh is not None: return [report_single(f["case"], fresh)]      # one call alone is wrong as well
+    needs = "caller-edited-result-and-input"
+    for do_out, do_in, name in ((False, False, "reuse-alone"), (True, False, "caller-edited-a-result"), (False, True, "caller-edited-an-input")):
+        g = run_history(terms, inputs, steps, do_out, do_in)
+        if g is not None and g["kind"] == f["kind"]:
+            needs, f = name, g
+            break
+    mode  = f["mode"] if f["kind"] == "kept" or f["mode"].startswith("raise:") else "differs-from-reference"
+    path  = "sparse" if any(is_sparse_input(f["case"][ns]) for ns in NS) else "dense"
+    flags = ["one-term" if len(sterms) == 1 else "multi-term"]
+    if any(is_num(t) for t in terms): flags.append("const")
+    if any(len(set(t)) > 1 for t in sterms): flags.append("cross")
+    return [(f"encode-history/path={path}/mode={mode}/needs={needs}/" + ",".join(flags),
+             f"{f['detail']} | terms={terms} x={f['case']['x']} a={f['case']['a']} | a fresh encoder is correct on these values")]
+
 # ------------------------------------------------------------------------------------------ one case
 def _structure(case):
     def shape(inp):
@@ -454,9 +624,8 @@ def check_case(spec, ctx=None):
         if fresh is None:
             viol.append((f"encode/mode={mode}/only-on-reused-encoder", f"encode #{n+1} on one encoder: {detail}; a fresh encoder is correct; terms={terms} x={inp['x']} a={inp['a']}"))
             continue
-        small = shrink(case)
-        r2 = evaluate(small) or fresh
-        viol.append((signature(small, r2[0]), f"{r2[1]} | minimal: terms={small['terms']} x={small['x']} a={small['a']} | original: terms={terms} x={inp['x']} a={inp['a']}"))
+        viol.append(report_single(case, fresh))
+    if spec.get("history"): viol += check_history(spec, ctx)
     return viol
 
 # ------------------------------------------------------------------------------------------ entry points
@@ -467,16 +636,23 @@ def run_shard(ctx):
     else:
         own = list(range(ctx.shard, small, ctx.nshards))
         indices = itertools.chain(own, (ctx.rng.randrange(small, NLISTS) for _ in range(max(0, ctx.n - len(own)))))
-    done = 0
-    for index in indices:
-        if done >= ctx.n or ctx.time_left() <= 0: break
-        spec = gen_case(ctx.rng, index, k)
-        if done < 1: ctx.sample({"terms": spec["terms"], "input": spec["inputs"][0]})
+    frac = ctx.plan.get("history_frac", .3)
+    def visit(spec):
         seen = set()
         for sig, what in check_case(spec, ctx):
             if sig in seen: continue
             seen.add(sig)
             ctx.violation(sig, what, spec)
+    for rep in range(ctx.plan.get("one_term_histories", 2)):     # every shard: a history on every one-term encoder
+        for index in range(OFFS[1]):
+            visit(gen_case(ctx.rng, index, k, history=True))
+            ctx.count("histories.one-term-extra")
+    done = 0
+    for index in indices:
+        if done >= ctx.n or ctx.time_left() <= 0: break
+        spec = gen_case(ctx.rng, index, k, history=index < small or ctx.rng.random() < frac)
+        if done < 1: ctx.sample({"terms": spec["terms"], "input": spec["inputs"][0], "history": spec.get("history")})
+        visit(spec)
         ctx.count("termlists.enumerated")
         done += 1
     if done < ctx.n:
